@@ -20,7 +20,7 @@ import (
 var c10Routes = []string{"/s", "/s/", "/s/t", "/s/?t", "/{p}", "/s/{p}", "/{m: **}", "/q/?r", "/", "/{p}/t", "/{m: **}/t"}
 var c10RegMethods = []string{"GET", "POST", "*", "GET,POST"}
 var c10HdrSets = [][]string{{}, {"X-K", "v"}}
-var c10Paths = []string{"/s", "//s", "/s/", "/s//", "/s/t", "/s/?t", "/q/?r", "/q", "/q/r", "/%73", "s", "", "/", "/s/t/", "/q/", "/{p}/t", "/{p}", "/s/{p}", "/{m: **}", "/x/t", "/{m: **}/t", "/x/y/t", "/S", "/s/T"}
+var c10Paths = []string{"/s", "//s", "/s/", "/s//", "/s/t", "/s/?t", "/q/?r", "/q", "/q/r", "/%73", "s", "", "/", "/s/t/", "/q/", "/{p}/t", "/{p}", "/s/{p}", "/{m: **}", "/x/t", "/{m: **}/t", "/x/y/t", "/S", "/s/T", "/s/u"}
 
 // c10ProbeMethods: two registered methods, a lower-case spelling of one (an unknown method for the router, as
 // any other token) and an unknown token
@@ -312,7 +312,7 @@ func c10Run(r *core.Run) {
 		// optional-static, shadowing placeholder and match-all, static below a static, root; one or all methods)
 		var ops4 []c10Op
 		for _, m := range []string{"GET", "POST", "*"} {
-			for _, rt := range []string{"/s", "/s/", "/s/?t", "/{p}", "/{m: **}", "/s/t", "/", "/{m: **}/t"} {
+			for _, rt := range []string{"/s", "/s/", "/s/?t", "/{p}", "/{m: **}", "/s/t", "/", "/{m: **}/t", "/s/u"} {
 				ops4 = append(ops4, c10Op{Kind: "reg", Method: m, Route: rt})
 			}
 		}
